@@ -57,6 +57,7 @@ type rtWrite struct {
 
 // rtConn is a system.Conn on the real clock.
 type rtConn struct {
+	made time.Duration // when the connection was handed out
 	id   int
 	w    *rtWorld
 	inC  chan rtIn
@@ -148,7 +149,7 @@ func c06RealOne(sc c06RealScenario, prop string) error {
 	d := system.NewDialer("eth0", st, system.Advertise, nil)
 	d.DialFunc = func() (*system.DialContext, error) {
 		w.mu.Lock()
-		c := &rtConn{id: len(w.conns), w: w, inC: make(chan rtIn, 256), dlC: make(chan struct{})}
+		c := &rtConn{made: time.Since(w.t0), id: len(w.conns), w: w, inC: make(chan rtIn, 256), dlC: make(chan struct{})}
 		w.conns = append(w.conns, c)
 		w.mu.Unlock()
 		return &system.DialContext{Conn: c, Interface: &net.Interface{Index: 1, Name: "eth0", MTU: 1500, HardwareAddr: net.HardwareAddr{2, 0, 0, 0, 0, 1}}, IP: netip.MustParseAddr("fe80::1")}, nil
@@ -220,9 +221,11 @@ func c06RealOne(sc c06RealScenario, prop string) error {
 		last[x.conn] = x.at
 	}
 	for _, c := range w.conns {
+		// the connection serves until the stop or the first link change sent after it was handed out (a
+		// solicitation read while the advertiser is already tearing the connection down need not be answered)
 		end := stopAt
 		for _, l := range linkAt {
-			if len(c.read) > 0 && l > c.read[0].at && l < end {
+			if l >= c.made && l < end {
 				end = l
 			}
 		}
@@ -313,7 +316,8 @@ func c06RealGen(t *rapid.T) c06RealCase {
 func TestVerif_C06real(t *testing.T) {
 	k := verifkit.Start(t, "C06")
 	prop := c06RealProp(k, "C06")
-	k.Regress(t, func(sub string, raw json.RawMessage) error { return nil })
+	k.Special = "real-clock"
+	k.Regress(t, func(sub string, raw json.RawMessage) error { return verifkit.Decode(raw, prop) })
 	verifkit.Rapid(k, t, "real-clock-runs(old timer semantics)", k.N(1, 10), c06RealGen, prop)
 }
 
@@ -321,6 +325,7 @@ func TestVerif_C06real(t *testing.T) {
 func TestVerif_C07real(t *testing.T) {
 	k := verifkit.Start(t, "C07")
 	prop := c06RealProp(k, "C07")
-	k.Regress(t, func(sub string, raw json.RawMessage) error { return nil })
+	k.Special = "real-clock"
+	k.Regress(t, func(sub string, raw json.RawMessage) error { return verifkit.Decode(raw, prop) })
 	verifkit.Rapid(k, t, "real-clock-runs(old timer semantics)", k.N(1, 10), c06RealGen, prop)
 }
